@@ -449,6 +449,19 @@ def ifilters(ctx):
             fonts = [build_font(desc), build_font(small)]
             args = (list(args[0]) + ["extra.part"],)
             ctx.klass("ifilter: masters with different repertoires, a skipped glyph in the smaller one only")
+        if cls is FlattenComponentsIFilter and (i // 3) % 2 == 1:
+            # masters that differ in STRUCTURE: A -> B -> C in the first, A -> C (nothing nested) in the last one -- what was
+            # changed in the first master is reported although the last one needed nothing
+            one_ = (Fr(1), Fr(0), Fr(0), Fr(1))
+            tri_ = [[(Fr(0), Fr(0), "line"), (Fr(80), Fr(0), "line"), (Fr(40), Fr(90), "line")]]
+            mk_ = lambda a_comps: {"glyphs": [
+                {"name": "C", "unicodes": [0x43], "width": Fr(300), "components": [], "anchors": [], "contours": tri_},
+                {"name": "B", "unicodes": [0x42], "width": Fr(300), "contours": [], "anchors": [], "components": [("C", one_ + (Fr(10), Fr(0)))]},
+                {"name": "A", "unicodes": [0x41], "width": Fr(300), "contours": [], "anchors": [], "components": a_comps}], "glyphOrder": ["C", "B", "A"]}
+            desc = mk_([("B", one_ + (Fr(5), Fr(7)))])
+            fonts = [build_font(desc), build_font(mk_([("C", one_ + (Fr(15), Fr(7)))]))]
+            uneven = True
+            ctx.klass("ifilter: masters of different structure (nested in the first only)")
         case = {"ifilter": cls.__name__, "args": jsonable(args), "font": jsonable(desc), "uneven_masters": uneven}
         try:
             filt = cls(*args)
